@@ -304,6 +304,14 @@ pub mod fs {
     pub fn stub_not_interrupted(_e: &io::Error) -> bool {
         false
     }
+    /// stubs for <io::Error as Error>::source / ::cause (never called by the code under test; CBMC reaches them
+    /// only through its over-approximation of the vtable call in io::Error's drop glue, where they recurse)
+    pub fn stub_no_source(_e: &io::Error) -> Option<&(dyn std::error::Error + 'static)> {
+        None
+    }
+    pub fn stub_no_cause(_e: &io::Error) -> Option<&dyn std::error::Error> {
+        None
+    }
     /// Path whose ghost file id is `fd` (see fd_of).
     pub fn path_for(fd: usize) -> PathBuf {
         let mut s = String::new();
